@@ -148,7 +148,9 @@ func main() {
 	}
 
 	if *dump != "" {
-		if strings.HasPrefix(*dump, "ipaths:") {
+		if strings.HasPrefix(*dump, "guards:") {
+			dumpGuards(P, strings.TrimPrefix(*dump, "guards:"))
+		} else if strings.HasPrefix(*dump, "ipaths:") {
 			dumpIPaths(P, strings.TrimPrefix(*dump, "ipaths:"))
 		} else if strings.HasPrefix(*dump, "paths:") {
 			dumpPaths(P, strings.TrimPrefix(*dump, "paths:"))
